@@ -496,6 +496,11 @@ func parseStops(csv *csv.File, inheritWheelchairBoarding bool) []Stop {
 		if !ok {
 			continue
 		}
+		// The stop hierarchy must be a forest: skip a link that would make the
+		// stop its own ancestor.
+		if isSameOrAncestor(&stops[i], &stops[parentStopIndex], len(stops)) {
+			continue
+		}
 		stops[i].Parent = &stops[parentStopIndex]
 	}
 
@@ -510,6 +515,23 @@ func parseStops(csv *csv.File, inheritWheelchairBoarding bool) []Stop {
 	}
 
 	return stops
+}
+
+// isSameOrAncestor reports whether stop is other or one of other's ancestors.
+//
+// The walk is bounded by maxDepth so that it terminates on any input; if the
+// bound is exceeded the answer is true.
+func isSameOrAncestor(stop *Stop, other *Stop, maxDepth int) bool {
+	for depth := 0; depth <= maxDepth; depth++ {
+		if other == nil {
+			return false
+		}
+		if other == stop {
+			return true
+		}
+		other = other.Parent
+	}
+	return true
 }
 
 func parseFloat64(s string) *float64 {
